@@ -128,6 +128,15 @@ BOUNDARY = [
     "schema.list.len(2, ...) % [..., 'x']", "schema.dict % {'a': ..., 'b': [1]}",
     "schema.dict({'a': schema.list(schema.str).len(2, 4)}) % {'a': ['x', ...]}",
     "schema.list(schema.list(schema.int).len(1, 2)).len(2)", "schema.int.max(-(2**63) - 5)", "schema.int.min(2**63 + 5)",
+    # cased non-ASCII literals whose upper()/lower()/casefold() is not one character, with and without inline flags: what is
+    # generated is validated by `re` itself
+    "schema.str.regex('(?i)stra\u00dfe')", "schema.str.regex('stra\u00dfe')", "schema.str.regex('(?i:\ufb01)x{2}')",
+    "schema.str.regex('(?i)\u0130\u0149\u01f0')", "schema.str.regex('^[\u00df\u0130]{3}$')", "schema.str.regex('(?i)[\u00df]{2}')",
+    "schema.str.regex('(?s)a.b')", "schema.str.regex('(?m)^ab$')", "schema.str.regex('(?x) a b # comment')", "schema.str.regex('(?a)\\w{3}\\d')",
+    # unions in which every alternative is of a rarely combined type
+    "schema.datetime | schema.none", "schema.any(schema.datetime, schema.date)", "schema.any(schema.date, schema.uuid4, schema.bytes)",
+    "schema.dict({'at': schema.datetime | schema.none, optional('on'): schema.any(schema.date)})", "schema.list(schema.datetime | schema.str.len(2))",
+    "schema.any(schema.bytes, schema.bool) | schema.none", "schema.any(schema.uuid4)", "schema.alias('T', schema.datetime) | schema.none",
 ]
 
 
